@@ -252,6 +252,11 @@ def step (d : DSt) (line : String) : DSt × String :=
         match how.toNat?, doStep d (.snapshot 8 (statusCode st)) with
         | some h, some sp' => doShift { d with sp := sp' } 8 h (some (statusCode st))
         | _, _ => (d, "bad-op")
+      | ["shiftmm", how, mx, st] =>
+        -- MaxResults bounds HowMany
+        match how.toNat?, mx.toNat?, doStep d (.snapshot 8 (statusCode st)) with
+        | some h, some m, some sp' => doShift { d with sp := sp' } 8 (if m > 0 && m < h then m else h) (some (statusCode st))
+        | _, _, _ => (d, "bad-op")
       | ["state"] => (d, stateLine d.sp.1)
       | _ => (d, "bad-op")
     else if d.mode == "stress" then
